@@ -161,3 +161,33 @@ Definition ret_fam_ok (o : opname) (args : list dtype) : bool :=
 (* the overloads for which a claim is made *)
 Definition ret_fam_claims (o : opname) (args : list dtype) : bool :=
   match accepted o args, ret_fam o (map fam_of args) with Some _, Some _ => true | _, _ => false end.
+
+(* ---------- expressions: the side condition of the expression-level statement ---------- *)
+From PDT Require Import Model.Expr Model.Typing.
+
+Definition tys_of (env : tenv) (args : list expr) : option (list dtype) :=
+  (fix go (l : list expr) : option (list dtype) :=
+     match l with
+     | [] => Some []
+     | a :: l' => match dtype_of env a, go l' with TOk t, Some ts => Some (t :: ts) | _, _ => None end
+     end) args.
+
+(* element-wise expressions over columns, literals, casts and the modelled operators whose applications lie in the
+   enumeration and carry a family claim *)
+Fixpoint tsound (env : tenv) (e : expr) {struct e} : bool :=
+  match e with
+  | ECol _ | ELit _ => true
+  | ECast e' _ => tsound env e'
+  | ECase _ _ => false
+  | EFn o args hp part arr =>
+      negb hp && match part with [] => true | _ => false end && match arr with [] => true | _ => false end
+      && match op_kind o with KElem => true | _ => false end
+      && match classify o with Some _ => true | None => false end
+      && (fix go (l : list expr) : bool := match l with [] => true | a :: l' => tsound env a && go l' end) args
+      && match tys_of env args with
+         | Some ats =>
+             existsb (dtypes_eqb ats) (enum_args o)
+             && match ret_fam o (map fam_of ats) with Some _ => true | None => false end
+         | None => false
+         end
+  end.
